@@ -801,6 +801,74 @@ class InterpBuiltins:
         a = self.H(coll).get(f'{prefix}g.{name}:{kt.sort()}', arr(Ref, arr(kt.sort(), I)))
         return SV(a[coll.ref][kt], INT)
 
+    def bi_setsum(self, args, kw, line):
+        """spec: setsum(S, lambda x: w) -> int.  Sum of the integer weight w(x) over the members x of the finite set-like
+        value S (a set, a dict = its keys, a SymSet such as the loop ghost `seen`).  The sum is an UNINTERPRETED function
+        of the characteristic array of S and of the parameters of the weight (lambda lifting: the maximal subterms of w
+        that do not depend on x become arguments, the remaining skeleton names the function symbol); nothing is ever
+        assumed about that symbol.  What the engine knows is the recursive definition of a finite sum, applied by
+        unfolding the syntactic shape of S:
+            setsum({}, w) = 0          setsum(S0 + {e}, w) = setsum(S0, w) + (0 if e in S0 else w(e))
+        (identities of finite sums; every Python collection, hence every subset of one, is finite).  Two sums are equal
+        when their sets and weight parameters are (congruence, array extensionality): no induction is available."""
+        s, lam = args
+        if not isinstance(lam, LambdaV) or len(lam.node.args.args) != 1:
+            raise Unsupported(f'setsum(set, lambda x: weight) (line {line})')
+        if isinstance(s, ValuesView) and s.what == 'keys':
+            s = s.d
+        ety = s.kty if isinstance(s, DictV) else getattr(s, 'ety', None)
+        if not isinstance(s, (SymSet, SetV, DictV)) or ety is None or ety == ANY:
+            raise Unsupported(f'setsum over {type(s).__name__} (line {line})')
+        chi = as_array(self.set_chi(s))
+        if isinstance(chi, EmptyChi):
+            return 0
+        so = sort_of(ety)
+        self.ssdepth = getattr(self, 'ssdepth', 0) + 1
+        saved = self.mode
+        self.mode = SPEC
+        try:
+            x = z3.Const(f'x!ss{self.ssdepth}', so)
+            wt = self.lift(self.call_lambda(lam, [self.wrap(x, ety)]))
+        finally:
+            self.mode = saved
+            self.ssdepth -= 1
+        if wt.sort() != I:
+            raise Unsupported(f'setsum: the weight must be an int (line {line})')
+        # lambda lifting of the weight
+        dep, params, holes = {}, [], {}
+
+        def depends(t):
+            i = t.get_id()
+            if i not in dep:
+                if z3.is_quantifier(t):
+                    raise Unsupported(f'setsum: quantifier inside the weight (line {line})')
+                dep[i] = z3.eq(t, x) or any(depends(c) for c in t.children())
+            return dep[i]
+
+        def skeleton(t):
+            if z3.eq(t, x) or z3.is_int_value(t) or z3.is_true(t) or z3.is_false(t):
+                return t
+            if not depends(t):
+                i = t.get_id()
+                if i not in holes:
+                    holes[i] = z3.Const(f'p!{len(params)}', t.sort())
+                    params.append(t)
+                return holes[i]
+            return t.decl()(*[skeleton(c) for c in t.children()])
+        import hashlib
+        sk = skeleton(wt)
+        key = hashlib.md5((sk.sexpr() + '|' + ','.join(str(p_.sort()) for p_ in params)).encode()).hexdigest()[:10]
+        f = z3.Function(f'setsum_{key}', chi.sort(), *[p_.sort() for p_ in params], I)
+
+        def unfold(c, fuel):
+            if z3.is_K(c) and z3.is_false(c.arg(0)):
+                return z3.IntVal(0)
+            if fuel and z3.is_store(c) and z3.is_true(c.arg(2)):
+                s0, e = c.arg(0), c.arg(1)
+                return unfold(s0, fuel - 1) + z3.If(s0[e], z3.IntVal(0), z3.substitute(wt, (x, e)))
+            return f(c, *params)
+        return SV(unfold(chi, 8), INT)
+
     def bi_order_len(self, args, kw, line):
         """spec: number of positions of the insertion order of dict d (= number of keys)"""
         d = args[0]
